@@ -378,14 +378,14 @@ class all_dot_brackets:
             # closure of the finished components and of the finished (popped) vertices of the current one
             "forall(lambda x, y: implies(x in GR and visited[x] and y in GR[x] and (CI[x] < len(components) - 1 or DN[x] == 1), "
             "visited[y] and CI[y] == CI[x]))",
-            # the stack holds unfinished vertices of the current component; SP = ghost position on the stack
+            # the stack holds distinct vertices of the current component, among them every unfinished one (SP = its ghost position)
             "len(stack) >= 0",
             # (explicit triggers: the two clauses below would otherwise instantiate each other for ever)
             "forall(lambda t: implies(0 <= t and t < len(stack), stack[t] in GR and visited[stack[t]] and "
-            "CI[stack[t]] == len(components) - 1 and DN[stack[t]] != 1), pats=['stack[t]'])",
+            "CI[stack[t]] == len(components) - 1), pats=['stack[t]'])",
             "forall(lambda t, u: implies(0 <= t and t < u and u < len(stack), stack[t] != stack[u]))",
             "forall(lambda x: implies(x in GR and visited[x] and CI[x] == len(components) - 1 and DN[x] != 1, "
-            "0 <= SP[x] and SP[x] < len(stack) and stack[SP[x]] == x), pats=['SP[x]'])"]},
+            "0 <= SP[x] and SP[x] < len(stack) and stack[SP[x]] == x), pats=['SP[x]', 'DN[x]'])"]},
         3: {"index": "q3", "seq": "EN", "inv": [
             "is_none(next_vertex)",
             "forall(lambda t: implies(0 <= t and t < q3, visited[EN[t]]))"]},
@@ -452,8 +452,7 @@ class all_dot_brackets:
                 "let DN = upd(DN, next_vertex, 0)", "let SP = upd(SP, next_vertex, len(stack) - 1)"]},
         {"when": "after", "at": "stack.pop()", "label": "finish", "do": ["let DN = upd(DN, current, 1)"]},
         {"when": "after", "at": "while stack:", "label": "component-finished",
-         "do": ["forall x | assert implies(x in GR and visited[x] and CI[x] == len(components) - 1, not (0 <= SP[x] and SP[x] < len(stack)))"
-                " | assert implies(x in GR and visited[x] and CI[x] == len(components) - 1, DN[x] == 1)"]},
+         "do": ["forall x | assert implies(x in GR and visited[x] and CI[x] == len(components) - 1, DN[x] == 1)"]},
         {"when": "before", "at": "unique = []", "label": "components",
          "do": ["assert comps_ok(components, GR, CI, CP)", "use groups_small_definition(self, components)",
                 "cut " + " and ".join(BASE + COMPS),
